@@ -39,6 +39,32 @@ def draw_positive(rnd):
     return 10 ** rnd.uniform(-4, 4)
 
 
+def draw_spelled(rnd):
+    """A positive proportion together with a way of writing it in an expression string: integer, decimals, trailing
+    point, exponent notation with and without decimal point / sign / capital E.  -> (text, value = float(text))"""
+    mant, exp = rnd.randint(1, 99), rnd.randint(-4, 3)
+    r = rnd.randrange(8)
+    if r == 0:
+        t = str(rnd.randint(1, 20))
+    elif r == 1:
+        t = repr(round(10 ** rnd.uniform(-3, 3), 4) or 0.5)
+        if "e" in t:
+            t = "0.5"
+    elif r == 2:
+        t = "%de%d" % (mant, exp)                      # 25e-2
+    elif r == 3:
+        t = "%dE%d" % (mant, abs(exp))                 # 2E3
+    elif r == 4:
+        t = "%d.%de%d" % (mant, rnd.randint(0, 9), exp)   # 2.5e-1
+    elif r == 5:
+        t = "%de+%d" % (mant, abs(exp))                # 1e+2
+    elif r == 6:
+        t = "%d." % mant                               # 5.
+    else:
+        t = "%d.%02dE%+03d" % (mant % 10, rnd.randint(0, 99), exp)   # 1.50E-02
+    return t, float(t)
+
+
 def concretisations(rec, nconc, rnd):
     from . import materials_adapter as A
     out = []
@@ -49,17 +75,21 @@ def concretisations(rec, nconc, rnd):
             names = A.pick_species(rnd, natural, k)
         else:
             names = rnd.sample(A.FORMULA_POOL, k)
+        texts = None
         if j == 0:
             props = [float(x) for x in rec["p"]]
+        elif rec["cls"] == "material" and j % 2 == 0:
+            texts, props = zip(*[draw_spelled(rnd) for _ in range(k)])        # written in some number spelling
+            texts, props = list(texts), list(props)
         else:
             props = [draw_positive(rnd) for _ in range(k)]
-        form = "string" if (rec["cls"] == "material" and j % 3 == 0 and all(1e-4 <= x < 1e15 for x in props)) else "dict"
+        form = "string" if (rec["cls"] == "material" and (j % 3 == 0 or texts) and all(1e-4 <= x < 1e15 for x in props)) else "dict"
         inp = {"A.p.%d" % (i + 1): props[i] for i in range(k)}
         # further inputs some scenario kinds use: the amount added afterwards, the second operand's proportions
         inp["A.q"] = 2.0 if j == 0 else draw_positive(rnd)
         for i in range(k):
             inp["B.p.%d" % (i + 1)] = float(rec["p"][k - 1 - i]) if j == 0 else draw_positive(rnd)
-        out.append({"names": names, "natural": natural, "form": form, "inp": inp})
+        out.append({"names": names, "natural": natural, "form": form, "inp": inp, "texts": texts})
     return out
 
 
